@@ -1,6 +1,6 @@
 /- Driver operations for grid geometry. -/
 import Strengths.Driver.Json
-import Strengths.Model.Grid
+import Strengths.Model.GridGraph
 
 namespace Strengths.Driver
 open Lean
@@ -34,7 +34,87 @@ def opEngNeighbors : Handler := fun j => do
   let tbl := (List.range g.size).map fun i => intListJson ((List.range 6).map fun n => engNeighbor g i n)
   return Json.mkObj [("ok", Json.arr tbl.toArray)]
 
+/-- a position: `{"n": p}` | `{"a": [x,y,z]}` | `{"o": [x,y,z]}` -/
+def getPos (j : Json) : Except String Pos := do
+  match fieldOpt j "n" with
+  | some p => return .num (← getInt p)
+  | none =>
+    match fieldOpt j "a" with
+    | some c =>
+      match ← getIntList c with
+      | [x, y, z] => return .arr x y z
+      | _ => throw "position a must have three entries"
+    | none =>
+      match ← getIntList (← field j "o") with
+      | [x, y, z] => return .obj x y z
+      | _ => throw "position o must have three entries"
+
+/-- `null` for a raised error (the correspondence compares raised-or-not only) -/
+def resOrNull {α} (f : α → Json) : Res α → Json
+  | .ok a => f a
+  | .error _ => Json.null
+
+/-- `{"op":"geom_pos","shape":..,"pos":[..]}` → per position `{"within":b,"index":i|null,"coords":[x,y,z]|null}`
+(`coords` = `get_cell_coordinates` of a number position; `null` for the other forms) -/
+def opGeomPos : Handler := fun j => do
+  let g ← getShape (← field j "shape")
+  let ps ← (← getArr (← field j "pos")).mapM getPos
+  let out := ps.map fun p =>
+    Json.mkObj [("within", Json.bool (pyWithinBounds g p)),
+                ("index", resOrNull intJson (pyCellIndex g p)),
+                ("coords", match p with
+                  | .num i => resOrNull (fun (x, y, z) => intListJson [x, y, z]) (pyCoords g i)
+                  | _ => Json.null)]
+  return Json.mkObj [("ok", Json.arr out.toArray)]
+
+/-- `{"op":"geom_are","shape":..,"pairs":[[p1,p2],..]}` → per pair `true|false|null` -/
+def opGeomAre : Handler := fun j => do
+  let g ← getShape (← field j "shape")
+  let prs ← (← getArr (← field j "pairs")).mapM fun pr => do
+    match ← getArr pr with
+    | [a, b] => return (← getPos a, ← getPos b)
+    | _ => throw "pair must have two positions"
+  let out := prs.map fun (a, b) => resOrNull Json.bool (pyAreNeighbors g a b)
+  return Json.mkObj [("ok", Json.arr out.toArray)]
+
+/-- `{"op":"geom_nbrs","shape":..}` → all four neighbour relations of the grid, cell by cell:
+`are` (n×n matrix of `are_neighbors(i, j)`), `get` (`get_neighbors(i)` in order), `kin` (the cells
+`_compute_dspeciesdt_grid` visits, in order), `eng` (the engine's 6-slot table) -/
+def opGeomNbrs : Handler := fun j => do
+  let g ← getShape (← field j "shape")
+  let cells := (List.range g.size).map fun (i : Nat) => (i : Int)
+  let are := cells.map fun i => Json.arr (cells.map fun k => resOrNull Json.bool (pyAreNeighbors g (.num i) (.num k))).toArray
+  let get := cells.map fun i => resOrNull intListJson (pyGetNeighbors g (.num i))
+  let kin := cells.map fun i => resOrNull intListJson (kinNeighbors g (.num i))
+  let eng := (List.range g.size).map fun i => intListJson ((List.range 6).map fun n => engNeighbor g i n)
+  return Json.mkObj [("ok", Json.mkObj [("are", Json.arr are.toArray), ("get", Json.arr get.toArray),
+    ("kin", Json.arr kin.toArray), ("eng", Json.arr eng.toArray)])]
+
+/-- `{"op":"grid_to_graph","shape":..,"a":"p/q","envs":[..]}` → nodes `[vol, env]`, edges `[i, j, S, d]`,
+and the graph-side queries on the result: `get_neighbors`, the kinetics enumeration, `get_edge` (position
+of the first matching edge, -1 for `None`) -/
+def opGridToGraph : Handler := fun j => do
+  let g ← getShape (← field j "shape")
+  let a ← getRat (← field j "a")
+  let envs ← getIntList (← field j "envs")
+  match gridToGraph g a envs with
+  | .error e => return Json.mkObj [("error", errName e)]
+  | .ok gr =>
+    let n := gr.nodes.length
+    let cells := (List.range n).map fun (i : Nat) => (i : Int)
+    let nodes := gr.nodes.map fun nd => Json.arr #[ratJson nd.volume, intJson nd.env]
+    let edges := gr.edges.map fun e => Json.arr #[intJson e.i, intJson e.j, ratJson e.surface, ratJson e.distance]
+    let gn := cells.map fun i => intListJson (graphGetNeighbors gr.edges i)
+    let kin := cells.map fun i => intListJson (kinGraphNeighbors n gr.edges i)
+    let ge := cells.map fun i => intListJson (cells.map fun k =>
+      match gr.edges.findIdx? (fun e => Gen.edgeMatches e.i e.j i k) with
+      | some p => (p : Int)
+      | none => -1)
+    return Json.mkObj [("ok", Json.mkObj [("nodes", Json.arr nodes.toArray), ("edges", Json.arr edges.toArray),
+      ("get_neighbors", Json.arr gn.toArray), ("kin", Json.arr kin.toArray), ("get_edge", Json.arr ge.toArray)])]
+
 def gridOps : List (String × Handler) :=
-  [("grid_index", opGridIndex), ("grid_coords", opGridCoords), ("eng_neighbors", opEngNeighbors)]
+  [("grid_index", opGridIndex), ("grid_coords", opGridCoords), ("eng_neighbors", opEngNeighbors),
+   ("geom_pos", opGeomPos), ("geom_are", opGeomAre), ("geom_nbrs", opGeomNbrs), ("grid_to_graph", opGridToGraph)]
 
 end Strengths.Driver
